@@ -436,6 +436,10 @@ def run(ctx: Ctx) -> Outcome:
     for i, r in enumerate(rows):
         ask({"op": "table.row", "i": i}, check_row(i, r))
 
+    spec_slots = gen_pods.spec_slots()
+    out.extra["table"]["spec_slots"] = len(spec_slots)
+    ask({"op": "table.specslots"}, lambda ans: (ans.get("ok") == [list(r) for r in spec_slots]) or out.disagree("table", "specslots", spec_slots, ans))
+
     # ---- value pools per kind
     pools = {
         "string": string_values(ctx), "html": html_values(ctx), "int": int_values(ctx), "float": float_values(ctx),
@@ -866,6 +870,97 @@ def run(ctx: Ctx) -> Outcome:
         direct("re.set", {"op": "re.set", "s": s}, re_set.sub("", s))
         direct("re.get", {"op": "re.get", "s": s}, re_get.sub(":", s))
         out.case(("re", s), nontrivial=re_set.sub("", s) != s or re_get.sub(":", s) != s)
+    # ---- (2b) the timestamp codec directly: isoformat / the stored text / truncation for aware datetimes over the whole
+    #      range (years 1..9999 incl. all field-width boundaries, every kind of offset), and fromisoformat on the written
+    #      shapes with digits and separators disturbed (in-shape but out-of-range fields must be ValueError = "bad")
+    td = datetime.timedelta
+    dts = [v for _, v in pools["datetime"] if isinstance(v, datetime.datetime) and is_aware(v)]
+    for _ in range(ctx.pick(300, 5000)):
+        y = rng.choice([1, 2, 9, 10, 99, 100, 999, 1000, 1582, 1970, 2024, 9998, 9999, rng.randint(1, 9999)])
+        mo = rng.randint(1, 12)
+        dmax = [31, 29 if (y % 4 == 0 and (y % 100 != 0 or y % 400 == 0)) else 28, 31, 30, 31, 30, 31, 31, 30, 31, 30, 31][mo - 1]
+        offk = rng.randrange(6)
+        off = [td(0), td(minutes=rng.randint(-1439, 1439)), td(seconds=rng.randint(-86399, 86399)),
+               td(seconds=rng.randint(-86399, 86399), microseconds=rng.randint(0, 999999)) if rng.random() < 0.9 else td(microseconds=rng.randint(-999999, 999999)),
+               rng.choice([1, -1]) * td(hours=23, minutes=59, seconds=59, microseconds=rng.choice([0, 999999])), td(hours=rng.randint(-23, 23))][offk]
+        if abs(off) >= td(hours=24):
+            off = td(0)
+        dts.append(datetime.datetime(y, mo, rng.choice([1, dmax, rng.randint(1, dmax)]), rng.choice([0, 23, rng.randint(0, 23)]), rng.choice([0, 59, rng.randint(0, 59)]),
+                                     rng.choice([0, 59, rng.randint(0, 59)]), rng.choice([0, 1, 999, 1000, 999499, 999500, 999999, rng.randint(0, 999999)]),
+                                     tzinfo=datetime.timezone(off)))
+    dt_dist: dict[str, int] = {}
+
+    def dt_format_case(t: datetime.datetime):
+        iso = t.isoformat("T", "milliseconds")
+        want = {"iso": iso, "stored": re_set.sub("", iso), "valid": True, "isoOk": not subsecond_offset(t),
+                "trunc": dt_fields(t.replace(microsecond=t.microsecond // 1000 * 1000))}
+        cls = ("utc" if off_us(t) == 0 else "subsecond" if subsecond_offset(t) else "minutes" if off_us(t) % 60_000_000 == 0
+               else "seconds" if off_us(t) % 1_000_000 == 0 else "microseconds")
+        dt_dist[cls] = dt_dist.get(cls, 0) + 1
+        dt_dist[f"year-digits:{len(str(t.year))}"] = dt_dist.get(f"year-digits:{len(str(t.year))}", 0) + 1
+
+        def h(ans, want=want, t=t, cls=cls):
+            if ans.get("ok") != want:
+                out.disagree("dt.format", {"dt": dt_fields(t)}, want, ans.get("ok", ans))
+            out.hit(f"dt.format.{cls}")
+        ask({"op": "dt.format", "f": dt_fields(t)}, h)
+        out.case(("dt.format", tuple(dt_fields(t))))
+        # the stored text read back by CPython: the theorem's instance on the implementation
+        back = datetime.datetime.fromisoformat(re_get.sub(":", want["stored"]))
+        if not subsecond_offset(t):
+            if dt_fields(back) == want["trunc"]:
+                out.traces_validated += 1
+            else:
+                out.find("law|isoformat-roundtrip", f"fromisoformat(re_get(re_set(isoformat({t!r})))) = {back!r}", {"kind": "law-dt", "id": dt_id(t)})
+
+    for t in dts:
+        dt_format_case(t)
+
+    def dt_parse_case(sx: str):
+        try:
+            b = datetime.datetime.fromisoformat(sx)
+            want = {"ok": dt_fields(b)} if is_aware(b) else "naive"
+        except ValueError:
+            want = "bad"
+
+        def h(ans, want=want, sx=sx):
+            m = ans.get("ok", ans)
+            if m == "foreign":
+                out.hit("dt.parse.foreign")  # a shape the code never writes: the model defers to CPython (oracle)
+                return
+            if m != want:
+                out.disagree("dt.parse", {"s": sx}, want, m)
+            out.hit("dt.parse." + ("bad" if m == "bad" else "ok"))
+        ask({"op": "dt.parse", "s": sx}, h)
+        out.case(("dt.parse", sx))
+
+    for t in rng.sample(dts, min(len(dts), ctx.pick(200, 3000))):
+        base = t.isoformat("T", "milliseconds")
+        dt_parse_case(base)
+        for _ in range(3):
+            cs = list(base)
+            for _ in range(rng.choice([1, 1, 2])):
+                i = rng.randrange(len(cs))
+                r = rng.random()
+                if cs[i].isdigit() and r < 0.75:
+                    cs[i] = rng.choice("0123456789")
+                elif r < 0.85:
+                    cs[i] = rng.choice("0123456789:-+.T Z")
+                elif r < 0.92:
+                    del cs[i]
+                else:
+                    cs.insert(i, rng.choice("0123456789:"))
+            dt_parse_case("".join(cs))
+    for sx in ["2021-02-29T00:00:00.000+01:00", "2020-02-29T00:00:00.000+01:00", "1900-02-29T00:00:00.000+00:00", "2000-02-29T00:00:00.000+00:00",
+               "0000-01-01T00:00:00.000+00:00", "2021-13-01T00:00:00.000+00:00", "2021-00-10T00:00:00.000+00:00", "2021-04-31T00:00:00.000+00:00",
+               "2021-01-01T24:00:00.000+00:00", "2021-01-01T23:60:00.000+00:00", "2021-01-01T23:59:60.000+00:00", "2021-01-01T00:00:00.000+24:00",
+               "2021-01-01T00:00:00.000+23:60", "2021-01-01T00:00:00.000-23:59:59.999999", "2021-01-01T00:00:00.000+23:59:60", "2021-01-01T00:00:00.000+01:00:61",
+               "2021-01-01T00:00:00.000+00:99", "2021-01-01T00:00:00.000-00:00", "2021-01-01T00:00:00.000+00:00:00.500000", "2021-01-01T00:00:00.000-00:00:00.000001",
+               "2021-01-01T00:00:00.000Z", "2021-01-01T00:00:00.000", "2021-01-01 00:00:00.000+00:00", "2021-01-01T00:00:00,000+00:00", "2021-01-01T00:00:00.000+0000",
+               "2021-01-01T00:00:00.0+00:00", "２０２１-01-01T00:00:00.000+00:00", "2021-01-01T00:00:00.000+00:00\n"]:
+        dt_parse_case(sx)
+    out.extra["datetime_distribution"] = dt_dist
+
     probe = etree.Element("p")
     cps = list(range(0, 0x300)) + [0xD7FF, 0xE000, 0xFFFD, 0xFFFE, 0xFFFF, 0x10000, 0x10FFFF] + [rng.randint(0x300, 0x10FFFF) for _ in range(ctx.pick(200, 3000))]
     for cp in cps:
@@ -906,7 +1001,7 @@ def run(ctx: Ctx) -> Outcome:
     out.extra["html_fragments_repaired"] = nrep
 
     # ---- (4) _Specification, (5) live model incl. save / reload
-    spec_part(ctx, out, ask, capellambse, helpers, _descriptors, etree, xml_legal)
+    spec_part(ctx, out, ask, capellambse, helpers, _descriptors, etree, xml_legal, spec_slots, classes)
     live_part(ctx, out, capellambse, helpers, pvmt_config, xml_legal, monitor_expect, py_equal, pools, enum_pool)
     reload_part(ctx, out, capellambse, pvmt_config, monitor_expect, py_equal, pools, enum_pool)
 
@@ -1084,7 +1179,7 @@ def spec_answer(out, ans, impl_res, final, kids, steps):
             out.disagree("spec.dict", {"kids": kids, "steps": steps}, "same results as the reference dict", m.get("dictSame"))
 
 
-def spec_part(ctx, out, ask, capellambse, helpers, _descriptors, etree, xml_legal):
+def spec_part(ctx, out, ask, capellambse, helpers, _descriptors, etree, xml_legal, spec_slots=(), classes=None):
     rng = ctx.rng
     model = capellambse.MelodyModel(str(common.REPO / "tests/data/melodymodel/5_2/Melody Model Test.aird"))
     loader = model._loader
@@ -1137,6 +1232,30 @@ def spec_part(ctx, out, ask, capellambse, helpers, _descriptors, etree, xml_lega
     def kids_of(e):
         return [[c.tag, c.text] for c in e]
 
+    def spec_of(elm, it):
+        """the mapping over `elm`: built directly, or — for every row of the generated `specSlots` table in turn — obtained
+        through the real `SpecificationAccessor` of an instance of that class"""
+        if not spec_slots or it % 2 == 0:
+            return _descriptors._Specification(model, elm)
+        cname, pyname, _ = spec_slots[(it // 2) % len(spec_slots)]
+        cls = classes[cname]
+        o = cls.__new__(cls)
+        o._element = etree.Element("x")
+        o._model = model
+        try:
+            getattr(o, pyname)
+            out.find("spec.accessor|no-child-no-error", f"{cname}.{pyname} without an ownedSpecification child does not raise AttributeError",
+                     {"kind": "spec-accessor", "cls": cname})
+        except AttributeError:
+            out.hit("spec.accessor.absent-attributeerror")
+        etree.SubElement(o._element, "somethingElse")
+        o._element.append(elm)
+        sp = getattr(o, pyname)
+        if sp._element is not elm:
+            out.find("spec.accessor|wrong-element", f"{cname}.{pyname} does not wrap the ownedSpecification child", {"kind": "spec-accessor", "cls": cname})
+        out.hit(f"spec.accessor.{cname.rsplit('.', 1)[-1]}.{pyname}")
+        return sp
+
     layouts = [
         [], [("bodies", "b0"), ("languages", "python")], [("languages", "capella:linkedText"), ("bodies", "A test spec.")],
         [("bodies", "b0"), ("bodies", "b1"), ("languages", "python"), ("languages", "capella:linkedText")],
@@ -1149,7 +1268,7 @@ def spec_part(ctx, out, ask, capellambse, helpers, _descriptors, etree, xml_lega
     for it in range(n):
         kids = [list(k) for k in rng.choice(layouts)]
         elm = mk(kids)
-        spec = _descriptors._Specification(model, elm)
+        spec = spec_of(elm, it)
         steps, impl_res = [], []
         oracle_esc, oracle_unesc = {}, {}
         balanced = len([k for k in kids if k[0] == "bodies"]) == len([k for k in kids if k[0] == "languages"])
